@@ -34,6 +34,7 @@ def summary_for(pid):
         return {'skipped': True}
     env = dict(os.environ)
     env.pop('VERIF_TIER', None)
+    env.setdefault('SELFTEST_JOBS', str(max(1, min(8, (os.cpu_count() or 2) // 2))))
     p = subprocess.run([os.path.join(HERE, 'check'), 'selftest', pid], env=env, stdout=subprocess.PIPE, stderr=subprocess.STDOUT, text=True)
     rows = [l for l in p.stdout.splitlines() if ' mutant ' in l or ' benign ' in l or ' seeded ' in l]
     return {'entries': len(rows), 'detected': sum('DETECTED' in r for r in rows), 'missed': [r.split()[0] for r in rows if 'MISSED' in r],
